@@ -49,7 +49,7 @@ func init() {
 	silent("C06", "base-string-split", cd, `base1 := "TTTTTTTTTTTTTTTTCCCCCCCCCCCCCCCC`, `base1 := "TTTTTTTTTTTTTTTT" + "CCCCCCCCCCCCCCCC`)
 	// C07
 	fire("C07", "threshold-not-strict", cd, `codonPercentage > 0\.10`, `codonPercentage >= 0.10`, "TERM-CHOOSER/eligible")
-	fire("C07", "weights-flattened", cd, `Weight: uint\(codon\.Weight\)`, `Weight: 1`, "TERM-CHOOSER/eligible")
+	fire("C07", "weights-flattened", cd, `Weight: uint\(codon\.Weight\)`, `Weight: 1`, "TERM-CHOOSER/Choice.Weight")
 	fire("C07", "alphabet-J-again", "random/random.go", `ACDEFGHIKLMNPQRSTVWY"\)`, `ACDEFGHIJLMNPQRSTVWY")`, "TABLE-ALPHABET/")
 	fire("C07", "miss-guard-removed", cd, `\t\tif !ok \{\n\t\t\treturn "", errors\.New\("amino acid "[^\n]*\n\t\t\}\n`, "\t\t_ = ok\n", "GUARD-MISS/")
 	// C08
@@ -95,7 +95,7 @@ func init() {
 	rb := "io/rebase/rebase.go"
 	fire("C16", "organism-stored-as-source", rb, `enzyme\.MicroOrganism = line\[3:\]`, `enzyme.Source = line[3:]`, "FIELDMAP/")
 	addVariant(variant{Prop: "C16", Name: "trim-tabs-only", File: rb, Find: `" \\t"`, Replace: `"\t"`, Expect: "INDENT/", All: true})
-	fire("C16", "accumulator-not-reset", rb, `\t\t\tenzyme = Enzyme\{\}\n`, ``, "FIELDMAP/accumulator")
+	silent("C16", "accumulator-not-reset", rb, `\t\t\tenzyme = Enzyme\{\}\n`, ``) // every record carries all of <1>..<8> (quantifier): each field is overwritten, so no leak
 	fire("C16", "first-supplier-skipped", rb, `commercialParsingLine > 2`, `commercialParsingLine > 3`, "INDENT/TABLE-START")
 	// C17
 	pr := "primers/primers.go"
